@@ -4,6 +4,45 @@
 
 package iterator
 
+// (ucmp, the comparer's order on byte strings, and the contract of comparer.Comparer.Compare are declared with the
+// contracts of package leveldb.)
+// C02: the heap of sources orders them by their current keys under the iterator's comparer: smallest first when the
+// iterator walks forward, largest first when it walks backward; absolute moves choose the orientation.
+//@ func (*indexHeap).Less
+//@   props C02
+//@   safety off
+//@   ensures [C02:smallest-key-first-forward-largest-first-backward] result <==> (h.reverse ? ucmp(h.keys[h.indexes[old(i)]], h.keys[h.indexes[old(j)]]) > 0 : ucmp(h.keys[h.indexes[old(i)]], h.keys[h.indexes[old(j)]]) < 0)
+//@ func (*indexHeap).Reset
+//@   props C02
+//@   safety off
+//@   ensures [C02:reset-empties-the-heap-and-sets-its-orientation] len(h.indexes) == 0 && h.reverse == reverse
+//@ func (*indexHeap).Push
+//@   props C02
+//@   safety off
+//@   ensures [C02:push-adds-one-slot] len(h.indexes) == old(len(h.indexes)) + 1
+//@ func (*indexHeap).Pop
+//@   props C02
+//@   safety off
+//@   requires len(h.indexes) >= 1
+//@   ensures [C02:pop-takes-one-slot] len(h.indexes) == old(len(h.indexes)) - 1
+//@ func (*indexHeap).Swap
+//@   props C02
+//@   safety off
+//@   requires 0 <= i && i < len(h.indexes) && 0 <= j && j < len(h.indexes)
+//@   ensures [C02:swap-exchanges-two-slots] h.indexes[i] == old(h.indexes[j]) && h.indexes[j] == old(h.indexes[i]) && len(h.indexes) == old(len(h.indexes))
+
+// Assumed contract of a source iterator (the same assumption the contracts of package leveldb make for Next, Prev,
+// Key, Value ...): positioning it writes byte buffers only (its own); it does not reach back into the merged
+// iterator that drives it. Listed among the assumptions in the evidence.
+//@ interface iterator.Iterator.First
+//@   effects M$uint8
+//@ interface iterator.Iterator.Last
+//@   effects M$uint8
+//@ interface iterator.Iterator.Seek
+//@   effects M$uint8
+//@ interface iterator.Iterator.Release
+//@   effects M$uint8
+
 // C02: an absolute move of the merged iterator positions EVERY source (a source left where it was would contribute
 // stale entries or none), each at the caller's key for Seek; only then is the smallest / largest picked.
 //@ count iterator.IteratorSeeker.Seek
@@ -16,11 +55,15 @@ package iterator
 //@     invariant [C02:every-source-so-far-was-positioned] calls("iterator.IteratorSeeker.Seek") >= old(calls("iterator.IteratorSeeker.Seek")) + rangeidx
 //@   at before call iterator.IteratorSeeker.Seek#*
 //@     assert [C02:sources-are-sought-at-the-callers-key] sameslice(arg0, key)
+//@   at before call (*indexHeap).Reset#1
+//@     assert [C02:a-forward-move-orders-smallest-first] !arg0
 //@   at before call heap.Init#1
 //@     assert [C02:every-source-was-positioned] calls("iterator.IteratorSeeker.Seek") >= old(calls("iterator.IteratorSeeker.Seek")) + len(i.iters)
 //@ func (*mergedIterator).First
 //@   props C02
 //@   safety off
+//@   at before call (*indexHeap).Reset#1
+//@     assert [C02:a-forward-move-orders-smallest-first] !arg0
 //@   loop 1
 //@     invariant [C02:every-source-so-far-was-positioned] calls("iterator.IteratorSeeker.First") >= old(calls("iterator.IteratorSeeker.First")) + rangeidx
 //@   at before call heap.Init#1
@@ -28,7 +71,41 @@ package iterator
 //@ func (*mergedIterator).Last
 //@   props C02
 //@   safety off
+//@   at before call (*indexHeap).Reset#1
+//@     assert [C02:a-backward-move-orders-largest-first] arg0
 //@   loop 1
 //@     invariant [C02:every-source-so-far-was-positioned] calls("iterator.IteratorSeeker.Last") >= old(calls("iterator.IteratorSeeker.Last")) + rangeidx
 //@   at before call heap.Init#1
 //@     assert [C02:every-source-was-positioned] calls("iterator.IteratorSeeker.Last") >= old(calls("iterator.IteratorSeeker.Last")) + len(i.iters)
+
+// C02: a relative move steps the source under the cursor and puts it back among the candidates with its new key (or
+// takes it out when it is exhausted) before the next smallest / largest is picked. A change of direction first brings
+// every other source to the right side of the current key.
+//@ count iterator.IteratorSeeker.Next
+//@ count iterator.IteratorSeeker.Prev
+//@ func (*mergedIterator).Next
+//@   props C02
+//@   safety off
+//@   at before call iterator.IteratorSeeker.Next#1
+//@     assert [C02:the-source-under-the-cursor-is-stepped] recv == i.iters[i.index]
+//@   at before call heap.Push#1
+//@     assert [C02:the-stepped-source-returns-with-its-new-key] x == i.index && !isnil(i.keys[x])
+//@   at before call (*mergedIterator).next#1
+//@     assert [C02:the-cursor-source-is-stepped-before-the-next-smallest-is-picked] calls("iterator.IteratorSeeker.Next") >= old(calls("iterator.IteratorSeeker.Next")) + 1
+//@   at before call (*mergedIterator).Seek#1
+//@     assert [C02:turning-forward-starts-from-the-current-key] i.dir == dirBackward
+//@ func (*mergedIterator).Prev
+//@   props C02
+//@   safety off
+//@   loop 1
+//@     invariant [C02:every-other-source-so-far-was-sought] calls("iterator.IteratorSeeker.Seek") >= old(calls("iterator.IteratorSeeker.Seek")) + rangeidx - ((rangeidx > i.index) ? 1 : 0)
+//@   at before call (*indexHeap).Reset#1
+//@     assert [C02:a-backward-move-orders-largest-first] arg0
+//@   at before call iterator.IteratorSeeker.Seek#1
+//@     assert [C02:turning-backward-seeks-the-other-sources-at-the-current-key] sameslice(arg0, key) && x != i.index
+//@   at before call iterator.IteratorSeeker.Prev#2
+//@     assert [C02:the-source-under-the-cursor-is-stepped] recv == i.iters[i.index]
+//@   at before call heap.Push#1
+//@     assert [C02:the-stepped-source-returns-with-its-new-key] x == i.index && !isnil(i.keys[x])
+//@   at before call (*mergedIterator).prev#1
+//@     assert [C02:the-cursor-source-is-stepped-before-the-next-largest-is-picked] calls("iterator.IteratorSeeker.Prev") >= old(calls("iterator.IteratorSeeker.Prev")) + 1
